@@ -21,7 +21,7 @@ import (
 	"verif/rig"
 )
 
-const ruleBalloon = "rapid-drawn (digest sequence incl. prefix families / dup class) x (partition into Add/AddBulk) x (restart points: fresh Balloon on the same store); every returned snapshot compared with the independent reference trees. Non-trivial: n>=3 and the case has a bulk>=2, a restart, or two keys sharing a >=24-bit prefix; distinct = FNV-64 of the canonical history."
+const ruleBalloon = "rapid-drawn (digest sequence incl. prefix families / dup class; 1 in 16 cases a log of 1001-2001 events in a few big bulks, above the 1000-entry page of the cache warm-up) x (partition into Add/AddBulk) x (restart points: fresh Balloon on the same store); every returned snapshot compared with the independent reference trees. Non-trivial: n>=3 and the case has a bulk>=2, a restart, or two keys sharing a >=24-bit prefix; distinct = FNV-64 of the canonical history."
 
 func TestBalloonVsRef(t *testing.T) {
 	rec := pbt.NewRec("C04", "TestBalloonVsRef", ruleBalloon,
@@ -29,6 +29,13 @@ func TestBalloonVsRef(t *testing.T) {
 		"SHA-256 as implemented by crypto/sha256")
 	maxN := pbt.Scale(80, 600)
 	pbt.Run(t, rec, func(rt *rapid.T) rig.LogHistory {
+		if rapid.IntRange(0, 15).Draw(rt, "page-boundary") == 0 {
+			h := rig.DrawBigLog(rt, rapid.SampledFrom([]int{1001, 1100, 2001}).Draw(rt, "big-n"))
+			for i := 1; i < len(h.Calls); i++ {
+				h.Restarts = append(h.Restarts, i)
+			}
+			return h
+		}
 		distinct := rapid.IntRange(0, 6).Draw(rt, "distinct") != 0
 		return rig.DrawLog(rt, maxN, distinct, true)
 	}, execBalloon)
@@ -96,6 +103,11 @@ func TestTreesVsRef(t *testing.T) {
 	maxN := pbt.Scale(150, 1500)
 	pbt.Run(t, rec, func(rt *rapid.T) TreeHistory {
 		h := TreeHistory{LogHistory: rig.DrawLog(rt, maxN, true, false)}
+		if rapid.IntRange(0, 11).Draw(rt, "page-boundary") == 0 {
+			// the cache warm-up reads the recovery tiles in pages of 1000: logs around
+			// the page size, in a few big bulks, rebuilt before every call
+			h.LogHistory = rig.DrawBigLog(rt, rapid.SampledFrom([]int{999, 1000, 1001, 1500, 1999, 2001, 2300}).Draw(rt, "big-n"))
+		}
 		maxBulk := 1
 		for _, c := range h.Calls {
 			if c.N > maxBulk {
@@ -107,7 +119,7 @@ func TestTreesVsRef(t *testing.T) {
 		} else {
 			h.HistCache = uint16(2*maxBulk + 64 + rapid.IntRange(0, 100).Draw(rt, "slack"))
 		}
-		h.FreshEach = rapid.IntRange(0, 3).Draw(rt, "fresh") == 0
+		h.FreshEach = rapid.IntRange(0, 3).Draw(rt, "fresh") == 0 || len(h.Digests) > 900
 		return h
 	}, execTrees)
 }
